@@ -1,8 +1,7 @@
 """C13 — Quadtree enumeration and tile counts are consistent and match what is visited."""
 PROPERTY = "C13"
 LEVEL = "other"
-CONTRACT_MODULES = ["contracts.specfuns", "contracts.lemmas_desc", "contracts.pyramid", "contracts.parallel", "contracts.walk", "contracts.reducer", "contracts.lemmas_embed", "contracts.generator", "contracts.image", "contracts.merge",
-                    "contracts.pyramidio", "contracts.study", "contracts.multitan", "contracts.toastsample", "contracts.toastgeom", "contracts.toastgen"]
+CONTRACT_MODULES = ["contracts.specfuns", "contracts.lemmas_desc", "contracts.pyramid", "contracts.parallel", "contracts.walk", "contracts.reducer", "contracts.lemmas_embed", "contracts.generator", "contracts.image", "contracts.merge", "contracts.pyramidio", "contracts.study", "contracts.multitan", "contracts.multiwcs", "contracts.toastsample", "contracts.toastgeom", "contracts.toastgen"]
 FUNCTIONS = [
     "toasty.pyramid.pos_parent",
     "toasty.pyramid.pos_children",
@@ -20,6 +19,11 @@ FUNCTIONS = [
     "toasty.toast._postfix_corner",
     "toasty.toast.generate_tiles_filtered",
     "toasty.toast.generate_tiles",
+    "toasty.pyramid.Pyramid.walk",
+    "toasty.pyramid.Pyramid._walk_serial",
+    "toasty.pyramid.Pyramid._walk_parallel",
+    "toasty.pyramid.Pyramid.visit_leaves",
+    "toasty.pyramid.Pyramid._visit_leaves_serial",
 ]
 LEMMAS = ["desc_child_step", "desc_child_pair", "desc_siblings_disjoint", "desc_levels", "desc_transitive",
           "desc_root", "pow2_add", "ops_plus_leaves_equals_live",
